@@ -208,6 +208,8 @@ func corpusSources() []string {
 	l = append(l, "print 0 and (1"+strings.Repeat("+1", 400)+")\nprint 1 and (1"+strings.Repeat("+1", 400)+")\nprint 3 or (1"+strings.Repeat("+1", 400)+")")
 	// positions beyond 67823
 	l = append(l, strings.Repeat("# ........................................................................\n", 1000)+"print 1 + \"late\"\n")
+	// jump distances beyond 32767 (the operand is an unsigned 16-bit number), taken and not taken
+	l = append(l, "print 1 or (1"+strings.Repeat("+1", 17000)+")\nprint 0 or (1"+strings.Repeat("+1", 17000)+")\nprint 0 and (1"+strings.Repeat("+1", 30000)+")\nprint 2 and (1"+strings.Repeat("+1", 30000)+")\n")
 	return l
 }
 
@@ -254,6 +256,15 @@ func corpusItems() ([]corpusItem, error) {
 		}
 		a.op(bc.BIND, 0).raw(bb).op(bc.RET)
 		hand(fmt.Sprintf("h03-bind-%02x.bcb", bb), fmt.Sprintf("BIND with option byte 0x%02X", bb), handFile("h03", a.code, cs, nil), s(""))
+	}
+	// bind bytes that mean nothing (with two candidate blocks present): the recorded outcome is an error
+	for _, bb := range []byte{0x1F, 0x10, 0x14, 0x2E, 0x31, 0x00, 0xFF, 0x01, 0xF1} {
+		a = &asm{}
+		cs := []any{"t", "", "one", "two", "x"}
+		a.op(bc.DEFBLOCK, 0, 2).op(bc.ONE).op(bc.SETFIELD, 4).op(bc.POP).op(bc.ENDBLOCK)
+		a.op(bc.DEFBLOCK, 0, 3).op(bc.ZERO).op(bc.SETFIELD, 4).op(bc.POP).op(bc.ENDBLOCK)
+		a.op(bc.BIND, 0).raw(bb).op(bc.ONE).op(bc.PRINT).op(bc.RET)
+		hand(fmt.Sprintf("h14-bind-invalid-%02x.bcb", bb), fmt.Sprintf("BIND with the meaningless option byte 0x%02X", bb), handFile("h14", a.code, cs, []int{3}), nil)
 	}
 	// 2- and 3-byte varint operands
 	var many []any
